@@ -42,6 +42,12 @@ def outBytes : Except Err Bytes → String
   | .ok bs => toHex bs
   | .error e => e.name
 
+/-- forwarder output: `none` = nothing put on the wire -/
+def outOptBytes : Except Err (Option Bytes) → String
+  | .ok (some bs) => toHex bs
+  | .ok none => "none"
+  | .error e => e.name
+
 def nat! (i : Int) : Nat := i.toNat
 def bool! (i : Int) : Bool := i != 0
 
@@ -151,12 +157,22 @@ def mkReq (data : Bytes) : List Int → Option Request
     else none
   | _ => none
 
-/-- `pkt <kind> …` : kinds beacon shb gbc guc lsq lsr (variant 3, mib 5, then the arguments) / fwd / btp -/
+/-- `pkt <kind> …` : kinds beacon shb gbc guc lsq lsr (variant 3, mib 5, then the arguments) / fwd / fwdr / btp -/
 def pktOp (t : List String) : Option String :=
   match t with
   | ["fwd", hex] => do
     let bs ← parseHex hex
-    some (outBytes (forwardPacket bs))
+    some (outOptBytes (forwardPacket none bs))
+  | ["fwdr", m, st, mid, tst, lat, lon, hex] => do     -- forwarding with a DE PV refresh from the location table
+    let a ← ints? [m, st, mid, tst, lat, lon]
+    let pv ← mkSpv a
+    let bs ← parseHex hex
+    some (outOptBytes (forwardPacket (some pv) bs))
+  | ["fwds", kept, hex, plain] => do                  -- forwarding of a secured packet (envelope kept 1 / stripped 0)
+    let k ← nat? kept
+    let bs ← parseHex hex
+    let pl ← parseHex plain
+    some (outOptBytes (forwardSecured (k != 0) none bs pl))
   | ["btp", d, s, hex] => do
     let d ← nat? d
     let s ← nat? s
